@@ -29,6 +29,9 @@ pub fn cfg_coq(owners: &[IOStatus], outs: &[IOStatus], g: &Graph) -> String {
 }
 
 /// elementwise x - a - b mod 2^w on array/scalar values
+pub fn sub2_pub(x: &Value, a: &Value, b: &Value, t: &Type) -> Value { sub2(x, a, b, t) }
+pub fn add3_pub(a: &Value, b: &Value, c: &Value, t: &Type) -> Option<Value> { add3(a, b, c, t) }
+pub fn table_value_pub(n: u64, rng: &mut Rng, off: u64) -> Value { table_value(n, rng, off) }
 fn sub2(x: &Value, a: &Value, b: &Value, t: &Type) -> Value {
     let st = t.get_scalar_type();
     let get = |v: &Value| -> Vec<u128> { if t.is_scalar() { vec![v.to_u128(st).unwrap()] } else { v.to_flattened_array_u128(t.clone()).unwrap() } };
